@@ -163,13 +163,13 @@ def do_bundle_bytes(a, i0, n0, v1, i1):
     return ok and list(sim.attribute('A').value) == after
 
 
-for _i0 in range(N + 1):
-  define(globals(), 'C07', 'bundle_through_bytes_i%d' % _i0, AV + ['n0', 'v1', 'i1'], "return do_bundle_bytes([%s], %d, n0, v1, i1)" % (", ".join(AV), _i0),
-       [" and ".join('-32768 <= %s <= 32767' % a for a in AV), '0 <= n0 <= %d and -32768 <= v1 <= 32767 and 0 <= i1 <= %d' % (N + 1, N)],
-       tier='quick' if _i0 in (0, 3) else 'thorough', timeout=1800, path_timeout=300, drives=DRIVES + ['cpppo.server.enip.logix.process', 'cpppo.server.enip.ucmm.UCMM.request'],
-       bounds='a Multiple Service Packet [Read Tag A[i0] x n0, Write Tag A[i1]=v1, Read Tag Fragmented A[0-3]] encoded by the reference encoder, '
+for _i0, _n0, _i1 in ((0, 2, 1), (3, 2, 0), (1, 3, 4), (0, 4, 3), (2, 0, 2), (4, 1, 1)):
+  define(globals(), 'C07', 'bundle_through_bytes_%d_%d_%d' % (_i0, _n0, _i1), AV + ['v1'], "return do_bundle_bytes([%s], %d, %d, v1, %d)" % (", ".join(AV), _i0, _n0, _i1),
+       [" and ".join('-32768 <= %s <= 32767' % a for a in AV), '-32768 <= v1 <= 32767'],
+       tier='quick' if (_i0, _n0, _i1) in ((0, 2, 1), (3, 2, 0), (1, 3, 4)) else 'thorough', timeout=1800, path_timeout=300, drives=DRIVES + ['cpppo.server.enip.logix.process', 'cpppo.server.enip.ucmm.UCMM.request'],
+       bounds='a Multiple Service Packet [Read Tag A[%d] x %d, Write Tag A[%d]=v1, Read Tag Fragmented A[0-3]] encoded by the reference encoder, '
               'through the real frame/CPF/Unconnected Send/MSP parsers and request handlers; embedded replies decoded by the reference decoder: each '
-              'member (valid or out of range) gets its own reply in order, the last read observes exactly the effect of the write', outside='')
+              'member (valid or out of range) gets its own reply in order, the last read observes exactly the effect of the write' % (_i0, _n0, _i1), outside='other index shapes')
 
 
 # ---- bundle vs. one-by-one under a scaled reply-size budget (Logix.MAX_BYTES is user alterable) -----------------------------------------------
